@@ -166,6 +166,7 @@ func c17Queue(c *core.Case, o *core.Outcome) {
 }
 
 func c17Measure(c *core.Case, o *core.Outcome) {
+	metrics.Init(true) // T.Time records through the process-wide instance
 	var p c17MeasureParams
 	c.Params(&p)
 	l := engine.NewLog()
@@ -217,6 +218,10 @@ func c17Measure(c *core.Case, o *core.Outcome) {
 				cancel()
 			}
 			spin(time.Duration(p.BodyUS[i]) * time.Microsecond)
+			if id%4 == 1 {
+				// a stage of the body timed with the handle's own timer: part of the body like the rest
+				t.Time("lookup", func() { spin(time.Millisecond) })
+			}
 			engine.Behave(t, kind)
 		}
 	}
